@@ -19,6 +19,11 @@ TRUSTED = ['numpy FFT (pocketfft), BLAS and sqrt are not verified: the autocorre
 ASSUMPTIONS = ['steps are below half a cell (otherwise unwrapping is ambiguous)']
 
 
+def pre_build():
+    import translate
+    return [translate.gen_msd_shape()]
+
+
 def gen_cases(rng, tier):
     n = {'quick': 120, 'thorough': 2500, 'search': 80}[tier]
     cases = []
